@@ -48,10 +48,21 @@ def expand(r):
     return [r]
 
 
+def has_lazy_meta(r):
+    """A tagifiable that is also a metadata node is invisible until expanded: asking for markup neither emits
+    anything for it nor is required to raise."""
+    if r["k"] == "tf" and r.get("as") in ("meta", "str"):
+        # (a tagifiable that is ALSO a plain string is, un-expanded, just that string: text children are C02's business)
+        return True
+    if r["k"] in ("tag", "list"):
+        return any(has_lazy_meta(c) for c in r["c"])
+    return False
+
+
 def has_raw_tf(r):
     """tf (without _repr_html_) present in the raw tree (not inside another tf's payload)."""
     if r["k"] == "tf":
-        return True
+        return r.get("as") not in ("meta", "str")
     if r["k"] in ("tag", "list"):
         return any(has_raw_tf(c) for c in r["c"])
     return False
@@ -119,10 +130,43 @@ def check_case(ctx, r):
             ctx.violation("unexpanded-object-rendered", "get_html_string() returned markup for a tree holding an un-expanded object", dict(wit, output=out[:600]))
             return False
         ctx.count("oracle.unexpanded.raised")
-    else:
+    elif not has_lazy_meta(r):
         if raised is not None:
             ctx.violation("render-raises", "get_html_string() raised %r although nothing needs expansion" % raised, wit)
             return False
+    return True
+
+
+def check_retry(ctx, r):
+    """A failure inside a nested tagify() must not poison later renderings of the same tree."""
+    wit = {"recipe": r, "scenario": "tagify fails once, then the tree is rendered again"}
+    live = gen.build(r)
+    exp = expand(r)
+    live_exp = gen.build(exp[0])
+    ctx.count("oracle.retry")
+    try:
+        live.render()
+        ctx.violation("flaky-double-did-not-fail", "harness: the first rendering should have failed", wit)
+        return False
+    except RuntimeError as e:
+        if "transient" not in str(e):
+            ctx.violation("wrong-error-from-failing-expansion", "first rendering raised %r" % e, wit)
+            return False
+    for _ in range(2):
+        try:
+            a = live.render()
+        except Exception as e:
+            ctx.violation("failed-expansion-poisons-later-rendering", "rendering the same tree again raised %r" % e, wit)
+            return False
+        if a["html"] != live_exp.render()["html"]:
+            ctx.violation("expansion-html-differs", "rendering after a failed attempt differs from the expanded tree", wit)
+            return False
+    other = ht.div("unrelated", ht.span(gen.build({"k": "tf", "ret": "list", "c": [{"k": "text", "s": "ok"}]})))
+    try:
+        other.render()
+    except Exception as e:
+        ctx.violation("failed-expansion-poisons-later-rendering", "an unrelated tree raised %r after a failed rendering" % e, wit)
+        return False
     return True
 
 
@@ -164,11 +208,14 @@ def rand_node(rng, ids, depth, kind=None):
         return {"k": "list", "t": rng.choice(["list", "tuple", "taglist"]), "c": [rand_node(rng, ids, depth - 1) for _ in range(rng.randint(0, 3))]}
     if kind in ("tf", "tfobj"):
         ret = rng.choice(["list", "list", "list", "one"])
+        as_ = rng.choice([None] * 8 + ["str", "meta"]) if kind == "tf" else None
         if ret == "one":
             c = [rand_node(rng, ids, depth - 1, rng.choice(["tag", "text", "html", "dep", "meta", "tf", "empty"]))]
         else:
             c = tf_payload(rng, ids, depth)
         r = {"k": kind, "ret": ret, "c": c}
+        if as_:
+            r["as"] = as_
         if kind == "tfobj":
             r["s"] = "<s>" + ids.next("r") + "</s>"
         return r
@@ -242,6 +289,14 @@ def _run(ctx):
             ctx.guard(check_case, ctx, root, witness={"recipe": root})
             ctx.case(root, nontrivial=True)
             ctx.count("expansion_defined_roots")
+    for i in range(ctx.budget(30, 3000)):
+        ids = lg.Ids()
+        inner = {"k": "tf", "as": "flaky", "ret": "list", "c": [{"k": "text", "s": ids.next("f")}, gen.TAG("b", ws=False)]}
+        wrap = rng.choice([lambda x: gen.TAG("div", x), lambda x: gen.TAG("div", gen.TAG("span", {"k": "text", "s": "p"}, x, ws=False), gen.TAG("p")),
+                           lambda x: gen.TAG("ul", gen.TAG("li", gen.TAG("div", x)), {"k": "tf", "ret": "list", "c": [gen.TAG("li")]})])
+        tree = wrap(inner)
+        ctx.guard(check_retry, ctx, tree, witness={"recipe": tree})
+        ctx.case(("retry", tree), nontrivial=True)
     ex = gen.TAG("div", {"k": "text", "s": "a"}, {"k": "tf", "ret": "list", "c": [{"k": "text", "s": "x"}, gen.TAG("b", ws=False)]}, {"k": "tf", "ret": "list", "c": []})
     ctx.sample({"recipe": ex, "output": gen.build(ex).render()["html"]})
     # 2. random trees
